@@ -665,7 +665,126 @@ def _build_ops():
     op("conditional", 3, lambda U, c, t, f: ufl.conditional(c, t, f), l_conditional)
     op("max_value", 2, lambda U, a, b: ufl.max_value(a, b), l_minmax("max"))
     op("min_value", 2, lambda U, a, b: ufl.min_value(a, b), l_minmax("min"))
+    op("atan2", 2, lambda U, a, b: ufl.atan2(a, b), l_atan2)
+    for nm in ("J", "Y", "I", "K"):
+        op(
+            "bessel_" + nm,
+            1,
+            (lambda nm: lambda U, a, nu: getattr(ufl, "bessel_" + nm)(nu, a))(nm),
+            (lambda nm: lambda a, nu: l_scalar_fn(lambda x: M.fn("bessel" + nm, x, S(nu)))(a))(nm),
+        )
+    # spatial derivatives (semantics need the cell: ctx is passed as keyword)
+    CTX_OPS.update({"grad", "divg", "curl", "nabla_grad", "nabla_div", "dx", "Dn"})
+    op("grad", 1, lambda U, a: ufl.grad(a), l_grad)
+    op("nabla_grad", 1, lambda U, a: ufl.nabla_grad(a), l_nabla_grad)
+    op("divg", 1, lambda U, a: ufl.div(a), l_div_op)
+    op("nabla_div", 1, lambda U, a: ufl.nabla_div(a), l_nabla_div)
+    op("curl", 1, lambda U, a: ufl.curl(a), l_curl)
+    op("dx", 1, lambda U, a, *k: a.dx(*[_ix(U, x) for x in k]), l_dx)
     return ops
+
+
+CTX_OPS = set()
+
+
+def _garr(x, cell):
+    """Physical gradient of a sub-array (or 0-d array) -> array with a new last axis."""
+    return M.phys_grad(_sc(x) if x.shape == () else x, cell)
+
+
+def l_grad(a, ctx=None):
+    M._need_jets(ctx)
+    cell = ctx.cell()
+    return pointwise(lambda _, x: _garr(x, cell), a.shape + (cell.gdim,), a)
+
+
+def l_nabla_grad(a, ctx=None):
+    g = l_grad(a, ctx=ctx)
+    if not a.shape:
+        return g
+    return pointwise(lambda _, x: np.moveaxis(x, -1, 0).copy(), (g.shape[-1],) + a.shape, g)
+
+
+def l_div_op(a, ctx=None):
+    if not a.shape:
+        raise LangError("div of scalar")
+    g = l_grad(a, ctx=ctx)
+    if a.shape[-1] != g.shape[-1]:
+        raise LangError("div: last dimension is not gdim")
+    return pointwise(lambda _, x: M._trace_last_two(x), a.shape[:-1], g)
+
+
+def l_nabla_div(a, ctx=None):
+    if not a.shape:
+        raise LangError("nabla_div of scalar")
+    g = l_grad(a, ctx=ctx)
+    if a.shape[0] != g.shape[-1]:
+        raise LangError("nabla_div: first dimension is not gdim")
+
+    def f(_, x):
+        x2 = np.moveaxis(x, 0, -2) if x.ndim > 2 else x
+        return M._trace_last_two(x2)
+
+    return pointwise(f, a.shape[1:], g)
+
+
+def l_curl(a, ctx=None):
+    g = l_grad(a, ctx=ctx)
+    gd = g.shape[-1]
+    if a.shape == () and gd == 2:
+
+        def f0(_, x):
+            out = np.empty((2,), dtype=object)
+            out[0] = x[1]
+            out[1] = -x[0]
+            return out
+
+        return pointwise(f0, (2,), g)
+    if a.shape == (2,) and gd == 2:
+        return pointwise(lambda _, x: x[1, 0] - x[0, 1], (), g)
+    if a.shape == (3,) and gd == 3:
+
+        def f3(_, x):
+            out = np.empty((3,), dtype=object)
+            out[0] = x[2, 1] - x[1, 2]
+            out[1] = x[0, 2] - x[2, 0]
+            out[2] = x[1, 0] - x[0, 1]
+            return out
+
+        return pointwise(f3, (3,), g)
+    raise LangError("curl shape")
+
+
+def l_dx(a, *k, ctx=None):
+    g = a
+    for _ in k:
+        g = l_grad(g, ctx=ctx)
+    return l_getitem(g, "...", *k)
+
+
+def l_atan2(a, b):
+    if not true_scalar(a) or not true_scalar(b):
+        raise LangError("atan2 of non-scalars")
+
+    class _O:
+        pass
+
+    x, y = _sc(a.a), _sc(b.a)
+    import mpmath
+
+    from mc.sem.jet import Jet, real_const
+
+    ra, rb = real_const(x, "atan2"), real_const(y, "atan2")
+    if ra == 0 and rb == 0:
+        raise Undefined("atan2(0,0)")
+    base = mpmath.atan2(ra, rb)
+    if isinstance(x, Jet) or isinstance(y, Jet):
+        if abs(rb) > abs(ra):
+            j = M.fn("atan", M.s_div(x, y))
+        else:
+            j = -M.fn("atan", M.s_div(y, x))
+        return LT.from_value(j - const_of(j) + base, ())
+    return LT.from_value(base, ())
 
 
 def _raise(e):
@@ -756,6 +875,8 @@ def interp(recipe, U, ctx, cache=None):
         return interp(recipe[1], U, M._side_ctx(ctx, recipe[2]))
     es, ps = split_args(recipe)
     f = ops()[name][2]
+    if name in CTX_OPS:
+        return f(*[interp(e, U, ctx) for e in es], *ps, ctx=ctx)
     return f(*[interp(e, U, ctx) for e in es], *ps)
 
 
